@@ -117,7 +117,9 @@ fn multinomial(rng: &mut fastrand::Rng, probs: &[f32]) -> Option<usize> {
     let mut cum_prob = 0.;
     for (idx, &prob) in probs.iter().enumerate() {
         cum_prob += prob;
-        if target <= cum_prob {
+        // `target` is in [0, 1). The comparison is strict so that an item
+        // with zero probability is never selected, even if `target` is zero.
+        if target < cum_prob {
             return Some(idx);
         }
     }
